@@ -442,6 +442,10 @@ impl<'a> Parser<'a> {
 
     /// Parses multi-select lists (e.g., "[foo, bar, baz]")
     fn parse_multi_list(&mut self) -> ParseResult {
+        // A multi-select list has at least one element ("[]" is the flatten token).
+        if self.peek(0) == &Token::Rbracket {
+            return Err(self.err(self.peek(0), "Expected an expression in multi-select list", true));
+        }
         Ok(Ast::MultiList {
             offset: self.offset,
             elements: self.parse_list(Token::Rbracket)?,
@@ -465,6 +469,9 @@ impl<'a> Parser<'a> {
                 if self.peek(0) == &closing {
                     return Err(self.err(self.peek(0), "invalid token after ','", true));
                 }
+            } else if self.peek(0) != &closing {
+                // Elements must be separated by commas.
+                return Err(self.err(self.peek(0), "Expected ',' or the closing token", true));
             }
         }
         self.advance();
